@@ -483,7 +483,28 @@ func (e *specEnv) call(s *SExpr) Val {
 	vc := e.vc()
 	fn := s.Args[0]
 	args := s.Args[1:]
-	// method-style spec calls are not supported; only name(args)
+	// x.M(args) where M is a pure library method of x's Go type: the same uninterpreted symbol the code's
+	// own call of that method denotes (sugar for libfn("pkg.T.M", 0, x, args...))
+	if fn.Op == "sel" {
+		recv := e.value(fn.Args[0])
+		if t, ok := recv.GoT.(types.Type); ok && t != nil {
+			var tp *types.Package
+			if n, isN := t.(*types.Named); isN {
+				tp = n.Obj().Pkg()
+			} else if p, isP := t.(*types.Pointer); isP {
+				if n, isN := p.Elem().(*types.Named); isN {
+					tp = n.Obj().Pkg()
+				}
+			}
+			if obj, _, _ := types.LookupFieldOrMethod(t, true, tp, fn.Name); obj != nil {
+				if mf, isF := obj.(*types.Func); isF && x.prog.isPureLib(mf) {
+					call := &SExpr{Op: "call", Args: append([]*SExpr{{Op: "id", Name: "libfn"}, {Op: "str", Name: funcKey(mf)}, {Op: "int", Name: "0"}, fn.Args[0]}, args...)}
+					return e.call(call)
+				}
+			}
+		}
+		e.fail("call of %s: only pure library methods can be called in specifications", exprText(fn))
+	}
 	if fn.Op != "id" {
 		e.fail("call of %s", exprText(fn))
 	}
